@@ -73,8 +73,94 @@ func runC19(run *common.Run) {
 	if run.WantSub("burst") && !run.TooMany() {
 		c19Burst(run)
 	}
+	if run.WantSub("handback") && !run.TooMany() {
+		c19HandBack(run)
+	}
 	if run.WantSub("stress") && !run.TooMany() {
 		c19Stress(run)
+	}
+}
+
+// c19HandBack: the last references to a key are handed back by several callers in the same instant (the holder's Unlock,
+// one to three callers whose context has already ended, and/or a successor that acquires and unlocks at once), released
+// together from a spin barrier, many thousand times. Afterwards nobody holds or awaits anything: the map must be empty,
+// a fresh Lock must succeed at once, and nobody may have panicked. (The controlled scheduler cannot produce this: its
+// steps serialise the callers at the hook points.)
+func c19HandBack(run *common.Run) {
+	rounds := run.N(30000, 600000)
+	m := gcsutil.NewTransientLockMap()
+	ended, cancel := context.WithCancel(context.Background())
+	cancel()
+	for round := 0; round < rounds && !run.TooMany(); round++ {
+		if !run.Want("handback", round) {
+			continue
+		}
+		shape := round % 4 // 0: unlock + 1 ended waiter; 1: unlock + 2 ended; 2: unlock + successor; 3: unlock + ended + successor
+		key := fmt.Sprintf("k%d", round%3)
+		if !m.Lock(context.Background(), key) {
+			run.Violation("handback", round, "Lock of a free key returned false", nil)
+			return
+		}
+		var barrier atomic.Int32
+		var wg sync.WaitGroup
+		var bad atomic.Value
+		n := []int{2, 3, 2, 3}[shape]
+		start := func(fn func()) {
+			wg.Add(1)
+			go func() {
+				defer wg.Done()
+				defer func() {
+					if r := recover(); r != nil {
+						bad.CompareAndSwap(nil, fmt.Sprintf("a caller panicked: %v", r))
+					}
+				}()
+				barrier.Add(1)
+				for barrier.Load() < int32(n) {
+				}
+				fn()
+			}()
+		}
+		start(func() { m.Unlock(key) })
+		endedWaiter := func() {
+			if m.Lock(ended, key) {
+				// the key was free at that instant: legal; give it back
+				m.Unlock(key)
+			}
+		}
+		successor := func() {
+			ctx, c := context.WithTimeout(context.Background(), 20*time.Second)
+			defer c()
+			if !m.Lock(ctx, key) {
+				bad.CompareAndSwap(nil, "a successor did not get the key within 20 s although its holder unlocked at once")
+				return
+			}
+			m.Unlock(key)
+		}
+		switch shape {
+		case 0:
+			start(endedWaiter)
+		case 1:
+			start(endedWaiter)
+			start(endedWaiter)
+		case 2:
+			start(successor)
+		default:
+			start(endedWaiter)
+			start(successor)
+		}
+		wg.Wait()
+		run.Count("handback_rounds", 1)
+		if b, _ := bad.Load().(string); b != "" {
+			run.Violation("handback", round, fmt.Sprintf("%s (shape %d)", b, shape), nil)
+			return
+		}
+		if l := m.VerifLen(); l != 0 {
+			run.Violation("handback", round, fmt.Sprintf("nobody holds or awaits a lock, but the map retains %d entr(y/ies) after the last references to %q were handed back at the same time (shape %d: 0 = Unlock + one caller whose context had ended, 1 = + two such callers, 2 = Unlock + successor, 3 = all three)", l, key, shape), nil)
+			return
+		}
+		if round%1000 == 0 {
+			run.Case(common.Hash64("handback", fmt.Sprint(round)), true)
+		}
 	}
 }
 
